@@ -50,7 +50,7 @@ def ref_subst(env, f, subs, interps, mode):
             if mode == "mgs" and n in subs:
                 return subs[n]
             new = pys.rebuild(env, n, [body])
-            if mode == "mss":
+            if mode in ("mss", "mss-strict"):
                 return subs.get(new, new)
             return new
         args = [go(a, subs) for a in n.args()]
@@ -61,7 +61,9 @@ def ref_subst(env, f, subs, interps, mode):
             new = ref_subst(env, body, dict(zip(params, args)), {}, mode)
         else:
             new = pys.rebuild(env, n, args)
-        if mode == "mss":
+        if mode in ("mss", "mss-strict") and new.is_symbol() and not n.is_symbol():
+            return new          # a constructor collapsed the rebuilt term onto a symbol: not an occurrence of a key
+        if mode in ("mss", "mss-strict"):
             return subs.get(new, new)
         return new
     return go(f, subs)
@@ -174,7 +176,17 @@ def check_case(run, fbp, keys, vals, interp_defs, kind, g, cards):
                         continue
                     got = Evaluator(I, cards).eval(rb)
                     if canon(got, ty, cards) != canon(want, ty, cards):
-                        run.fail({"subcheck": "subst:%s-lemma" % mode, "kind": kind}, case,
+                        sig = {"subcheck": "subst:%s-lemma" % mode, "kind": kind}
+                        if mode == "mss":
+                            # would most-specific substitution that does not look a rebuilt term up again when a
+                            # constructor collapsed it onto a symbol satisfy the lemma here?
+                            try:
+                                alt = pys.decode(ref_subst(env, f, subs, interps, "mss-strict"))
+                                if canon(Evaluator(I, cards).eval(alt), ty, cards) == canon(want, ty, cards):
+                                    sig["class"] = "rebuilt-term-collapsed-onto-a-key-symbol"
+                            except Exception:
+                                pass
+                        run.fail(sig, case,
                                  "%s: value of the result %r != value of the original under the updated interpretation %r\n"
                                  " formula=%s\n map=%s\n result=%s\n interpretation=%r" % (
                                      mode, got, want, show(b0), {show(k): show(v) for k, v in zip(keys, vals)}, show(rb), I))
@@ -282,6 +294,36 @@ def shard(shard, seed, n):
     return run
 
 
+def shard_enum(shard, nshards, stride, offset):
+    """Bounded-exhaustive: symbol maps (single, swapping, onto an atom / a negation) on every formula with at most
+    two connectives / Boolean quantifiers; maps whose replacement mentions a symbol bound somewhere in the
+    formula are the capture class (executed, not judged)."""
+    import random
+    from vf import enumterms
+    from vf.refsem import reffv
+    run = Run(PID)
+    g = G(cfg=FCFG, rnd=random.Random(offset))
+    P, Q = sym("p", BOOL), sym("q", BOOL)
+    I_, J_ = sym("i", INT), sym("j", INT)
+    atom = ("LT", (), (I_, J_))
+    maps = [((P,), (atom,)), ((P,), (("NOT", (), (P,)),)), ((P,), (Q,)), ((Q,), (P,)), ((P, Q), (Q, P)),
+            ((I_,), (J_,)), ((I_, J_), (J_, I_)), ((P, I_), (("IFF", (), (P, Q)), ("PLUS", (), (I_, ("CONST", (INT, 1), ()))))),
+            ((atom,), (P,)), ((("NOT", (), (P,)),), (Q,))]
+    for idx, f in enumerate(enumterms.bool_quant_terms()):
+        if idx % nshards != shard or (idx // nshards) % stride != offset % stride:
+            continue
+        bound = {v for t in subterms(f) if t[0] in ("FORALL", "EXISTS") for v in t[1]}
+        for keys, vals in maps:
+            symbolic = all(k[0] == "SYMBOL" for k in keys)
+            fv = set()
+            for v in vals:
+                fv |= reffv(v)
+            kind = "capture" if (fv & bound) else ("symbols" if symbolic else "terms")
+            check_case(run, f, keys, vals, [], kind, g, {})
+        run.cls("enumerated-connective-combination")
+    return run
+
+
 def main():
     chk = Check(PID, "exploration", RULE, assumptions=[
         "reference evaluator vf/refsem.py (own shadowing rules); quantifiers over finite sorts only",
@@ -290,6 +332,7 @@ def main():
         "capture class that violates it is only executed, not judged"])
     thorough = chk.tier == "thorough"
     jobs = [(shard, dict(shard=s, seed=chk.seed, n=40000 if thorough else 2000)) for s in range(16)]
+    jobs += [(shard_enum, dict(shard=s, nshards=16, stride=1 if thorough else 3, offset=chk.seed)) for s in range(16)]
     chk.add(run_shards(jobs))
     chk.floor("key-symbol-bound-somewhere", 300)
     chk.floor("overlapping-keys", 300)
